@@ -538,6 +538,13 @@ func runStreams(c *mon.Ctx, s *slib) {
 			if ref == nil {
 				continue
 			}
+			if hi == 0 && !raw {
+				var ks []string
+				for _, it := range h {
+					ks = append(ks, it.v.Kind.String())
+				}
+				c.SampleOnce(L+"/history", map[string]any{"items": ks, "stream_bytes": len(ref), "stream": hx(ref)})
+			}
 			mode := "compressed"
 			if raw {
 				mode = "raw"
